@@ -103,7 +103,7 @@ func (p *Prog) Remove(name string) {
 
 // Subset is a shallow copy of the program with only the named functions.
 func (p *Prog) Subset(keep map[string]bool) *Prog {
-	q := &Prog{Pkg: p.Pkg, Import: p.Import, SeqImported: p.SeqImported}
+	q := &Prog{Pkg: p.Pkg, Import: p.Import, SeqImported: p.SeqImported, LoadTest: p.LoadTest}
 	for _, file := range p.Files {
 		nf := &File{Name: file.Name, Decls: file.Decls, RefDecls: file.RefDecls, UsesAPI: file.UsesAPI, Extern: file.Extern, Imports: file.Imports}
 		for _, f := range file.Funcs {
